@@ -137,7 +137,16 @@ func H_C06_StateLevel() {
 		case 1:
 			m.suspectNode(&suspect{Incarnation: older, Node: vPeerA, From: "n3"})
 		case 2:
-			m.aliveNode(&alive{Incarnation: older, Node: vPeerA, Addr: a.Addr, Port: a.Port}, nil, false)
+			// ... also one that names another address while a name-reclaim time is configured and has already
+			// passed since the suspicion began: only a dead or departed holder can be replaced, not a suspect
+			addr := a.Addr
+			if vPick(2) == 1 {
+				addr = []byte{10, 9, 9, 9}
+				conf.DeadNodeReclaimTime = []time.Duration{0, time.Millisecond}[vPick(2)]
+				vAdvance(2 * time.Millisecond)
+			}
+			m.aliveNode(&alive{Incarnation: older, Node: vPeerA, Addr: addr, Port: a.Port}, nil, false)
+			vAssert(vEqBytes(a.Addr, []byte{10, 0, 0, 2}), "c06.state.stale-claim-keeps-address")
 		}
 		vAssert(m.nodeTimers[vPeerA] == t1 && a.State == StateSuspect && a.Incarnation == inc, "c06.state.stale-claim-keeps-suspicion")
 		vAssert(t1.n.Load() == 0 && len(f.ev.log) == 0, "c06.state.stale-claim-not-a-confirmation")
